@@ -9,6 +9,7 @@ import hashlib
 import json
 import os
 import random
+import re
 import shutil
 import subprocess
 from concurrent.futures import ThreadPoolExecutor
@@ -52,6 +53,9 @@ def classify(case, evs, rej):
     return ("protocol", "rejected at %s after %s | %s" % (rej["ev"], stage, who),
             "the recorded run is not a behaviour of Pipeline.tla: event `%s` after %s is not allowed "
             "(order of calls, surface codes, cascade root, expected lexical code or expected outcome)" % (rej["ev"], stage))
+
+
+TAG_RE = re.compile(r"\[(E\d{3}|L\d{4})\]")
 
 
 def emit_one(penne, root, case, timeout):
@@ -109,6 +113,8 @@ def compare_cli(case, end, last, res):
             if tag not in res["stderr"]:
                 return ("cli-mismatch", "penne emit exits with %s but does not render %s: %s" % (rc, tag, res["stderr"][-300:]))
         return None
+    if end == "crash" and last.get("what") == "worker exited" and last.get("exit") == rc and not TAG_RE.search(res["stderr"]):
+        return None              # the same death: LLVM's linker ends the process with this status (already reported from the worker)
     if end in ("panic", "crash", "hang"):
         return ("cli-mismatch", "the library run ended as %s but penne emit exits with %s" % (end, rc))
     return None
@@ -138,9 +144,9 @@ def selftests(rep, meta, work_prefix):
     events = pc.paths(meta)["events"]
     groups = []
     for inp, evs, _ in pc.grouped_events(events):
-        groups.append((inp, evs))
-        if len(groups) >= 4000:
-            break
+        # (the first 4000 runs, and the nesting cells with a verdict wherever they are)
+        if len(groups) < 4000 or inp.get("expect", {}).get("t") in ("e390", "no390"):
+            groups.append((inp, evs))
     out = {}
     tests = []
 
@@ -203,6 +209,20 @@ def selftests(rep, meta, work_prefix):
         return i, e
     variant("success_reported_as_failure", ok_idx, flipped)
 
+    # nesting at the documented bound: the verdict E390 / no E390 is TLC's (DepthOK): swap the expectations
+    deep_idx = find(lambda i, e: i.get("expect", {}).get("t") == "e390" and pc.end_of(e)[0] == "failure")
+    shallow_idx = find(lambda i, e: i.get("expect", {}).get("t") == "no390" and pc.end_of(e)[0] in ("success", "failure"))
+
+    def expect_as(t):
+        def fn(i, e):
+            i["expect"]["t"] = t
+            return i, e
+        return fn
+    variant("e390_shown_where_forbidden", deep_idx, expect_as("no390"))
+    variant("e390_missing_where_demanded", shallow_idx, expect_as("e390"))
+    if deep_idx is None or shallow_idx is None:
+        out["nesting_cells_present"] = False
+
     res = pc.validate_traces("Trace_Pipeline", "Trace_Pipeline_plain.cfg", [p for _, p, _ in tests], parallel=6)
     by = {r["file"]: r for r in res}
     for name, path, cid in tests:
@@ -262,6 +282,7 @@ def run(rep, tier, seed, selftest):
     signatures = {}
     stack_pending = {}
     findings = pc.Findings()
+    dup_notes = []
     for inp, evs, _ in pc.grouped_events(p["events"]):
         cid = inp["id"]
         end, last = pc.end_of(evs)
@@ -277,6 +298,11 @@ def run(rep, tier, seed, selftest):
             kind, key, msg = classify(cases[cid], evs, rejected[cid])
             sig = (kind, " | ".join(key.split(" | ")[:2 if kind in ("panic", "internal") else 1]))
             signatures[sig] = signatures.get(sig, 0) + 1
+            if inp["kind"] == "dup" and end == "crash" and last.get("what") == "worker exited":
+                # the same module named twice is no SET of modules (outside the quantifier): LLVM's linker ends the process
+                # ("symbol multiply defined"); noted -- two DIFFERENT modules that define the same public name are reported
+                dup_notes.append("%s: %s" % (pc.ident(cases[cid]), (last.get("stderr") or "").strip().splitlines()[-1:][0:1]))
+                continue
             if end == "crash" and last.get("what") == "stack overflow":
                 # the worker is built with opt-level 1: decided below on the optimised `penne` binary
                 stack_pending[cid] = (sig, kind, key, {"case": cases[cid], "events": evs[-6:], "rejected_at": rejected[cid],
@@ -286,12 +312,26 @@ def run(rep, tier, seed, selftest):
                                           "how": "bin/check C02 --replay <this file>"})
         elif end not in ("success", "failure"):
             raise common.ToolError("run %s ended as %s but TLC accepted the trace" % (cid, end))
+    verdict_cells = {}
+    for cid_ in cases:
+        if cid_.startswith(("shape", "wset")):
+            t_ = cases[cid_].get("expect", {}).get("t", "free")
+            verdict_cells.setdefault(t_, [0, 0])
+            verdict_cells[t_][0] += 1
+            verdict_cells[t_][1] += cid_ not in rejected
+    for t_, least in (("e390", 30), ("no390", 25), ("valid", 200), ("set", 300), ("free", 1000)):
+        if verdict_cells.get(t_, [0, 0])[1] < least:
+            raise common.ToolError("only %s cells of MC_PipelineWide / PipelineShapes with the verdict `%s` were run and accepted (at least %d "
+                                   "expected): the generators or their renderers are stale" % (verdict_cells.get(t_), t_, least))
     log("[trace] %d recorded runs validated by TLC against Pipeline.tla: %d accepted, %d rejected; ends: %s" %
         (nruns, nruns - len(rejected), len(rejected), json.dumps(stats, sort_keys=True)))
     for sig, cnt in sorted(signatures.items(), key=lambda x: -x[1]):
         log("[trace]   %4d x %s: %s" % (cnt, sig[0], sig[1]))
     for note in meta.get("notes", []):
         rep.note_drift("worker: %s" % json.dumps(note)[:300])
+    if dup_notes:
+        rep.note_drift("the same module named twice on the command line ends inside LLVM's linker without a diagnostic (%d inputs, e.g. %s)" %
+                       (len(dup_notes), dup_notes[0]))
     # ---- the real driver on a 5 % sample (plus every anomalous run)
     rnd = random.Random(seed)
     ids = sorted(cases)
@@ -350,7 +390,10 @@ def run(rep, tier, seed, selftest):
                 "compiled through the whole pipeline, seeded mutants of all corpus files (delete/duplicate/swap/replace/insert/splice/"
                 "truncate one token; swap/delete/duplicate/move one LINE), structure/word programs with shuffled literals, token soup, 16 nesting shapes up to depth 256, "
                 "near-valid programs with one lexical fault, generated 2-3-module sets; each run in an isolated child process, "
-                "every event sequence validated by TLC against Pipeline.tla. Non-trivial = distinct source texts with >= 2 tokens." % 86,
+                "every event sequence validated by TLC against Pipeline.tla. Also from TLC: module sets of 4-6 modules in 8 import topologies "
+                "(MC_PipelineWide) and the structured cells of PipelineShapes.tla (every builtin x arguments x context x modules, nesting at the "
+                "documented bound of 127 with the E390 verdict, exact sizes up to 64 KiB, symbol-table shapes, names shared between modules); layout "
+                "variants of every invalid sample, repeated modules. Non-trivial = distinct source texts with >= 2 tokens." % 95,
         "samples": sample_cases,
         "states": mc["distinct"] + sum(v["distinct"] for k, v in tl.items() if k not in (mc_name, place_name)),
         "transitions": mc["generated"] + sum(v["generated"] for k, v in tl.items() if k not in (mc_name, place_name)),
@@ -362,6 +405,7 @@ def run(rep, tier, seed, selftest):
         "rejection_signatures": {"%s: %s" % k: v for k, v in signatures.items()},
         "ends_by_input_kind": by_kind,
         "from_tlc": meta["from_tlc"],
+        "cells_with_verdict_run_and_accepted": verdict_cells,
         "lexeme_code_hidden_behind_consequential_error": len(hidden),
         "cli_runs": len(todo),
         "cli_disagreements": n_cli_bad,
@@ -380,10 +424,22 @@ def run(rep, tier, seed, selftest):
         "CLI-level observations use the optimised build (cargo build --release) with the default 8 MiB main-thread stack; the worker "
         "is built with opt-level 1; a stack overflow counts only if the optimised binary shows it too",
     ]
+    # the recogniser of the documented grammar (spec/SyntaxRules.tla, docs/notes-syntax.md): this check receives the kinds of
+    # discrepancy that belong to its property (syntax_part.PROPERTY_KINDS); one computation is shared by C02, C13, C15, C16
+    from . import syntax_part
+    syn = syntax_part.run_part(rep, tier, seed, selftest)
+    coverage["syntax_part"] = syn
+    coverage["states"] = coverage.get("states", 0) + syn["states"]
+    coverage["transitions"] = coverage.get("transitions", 0) + syn["transitions"]
+    coverage["traces_validated_against_impl"] = coverage.get("traces_validated_against_impl", 0) + syn["cases_replayed"] + syn["traces_accepted"]
+    coverage["evaluations"] = coverage.get("evaluations", 0) + syn["evaluations"]
     return rep.finish("exploration", coverage, assumptions)
 
 
 def replay(path):
+    if json.load(open(path)).get("detail", {}).get("part") == "syntax":
+        from . import syntax_part
+        return syntax_part.replay(path)
     d = json.load(open(path))
     print("kind:", d["kind"])
     print("key: ", d["key"])
